@@ -4,9 +4,9 @@ CONSTANTS
   Peers = {"p1", "p2"}
   MaxPolls = 3
   MaxFail = 1
-  MaxEnv = 2
+  MaxEnv = 1
   CountNullVersion = FALSE
   Variant = "ok"
-INVARIANTS TypeOK AgreeSound AgreeComplete ErrOnlyLate CtxOnlyCancelled CancelHonoured DeadlineHonoured DdlWaits
+INVARIANTS ReachMarks TypeOK AgreeSound AgreeComplete ErrOnlyLate CtxOnlyCancelled CancelHonoured DeadlineHonoured DdlWaits
 PROPERTY Terminates
 CHECK_DEADLOCK FALSE
